@@ -95,6 +95,7 @@ type leaf struct {
 	text  string
 	cmd   string          // the command that produced it
 	loose map[string]bool // properties not asserted for this leaf
+	alone bool            // its command is the only drawing command between two style changes (finding F43's situation)
 }
 
 func f10(v float64) string { return strconv.FormatFloat(v, 'f', -1, 64) }
@@ -105,16 +106,37 @@ func expected(hist []Cmd) []leaf {
 	var pen style
 	ty := func(v float64) float64 { return 1000 - 10*v }
 	add := func(l leaf) { out = append(out, l) }
-	clear := func(color, cmd string) {
+	clear := func(color, cmd string, given bool) {
+		loose := map[string]bool{"width-attr": true, "dash": true, "linecap": true}
 		if color == "" {
 			color = "white"
+			if given {
+				// `clear ""`: the documents define the argument as a colour; what an empty string stands for is left open
+				loose["stroke"], loose["fill"] = true, true
+			}
 		}
-		add(leaf{kind: "rect", cmd: cmd, geom: map[string]string{"x": "0", "y": "0", "width": "100%", "height": "100%"}, st: style{stroke: color, fill: color},
-			loose: map[string]bool{"width-attr": true, "dash": true, "linecap": true}})
+		add(leaf{kind: "rect", cmd: cmd, geom: map[string]string{"x": "0", "y": "0", "width": "100%", "height": "100%"}, st: style{stroke: color, fill: color}, loose: loose})
 	}
-	clear("white", "(initial clear)")
+	clear("white", "(initial clear)", false)
+	// drawing commands are collected until the next style change (or the end) and written as one group
+	groupStart, groupCmds := 0, 1
+	closeGroup := func() {
+		if groupCmds == 1 {
+			for i := groupStart; i < len(out); i++ {
+				out[i].alone = true
+			}
+		}
+		groupStart, groupCmds = len(out), 0
+	}
 	for _, c := range hist {
 		n := c.Nums
+		switch c.Fn {
+		case "move":
+		case "color", "colour", "stroke", "fill", "width", "dash", "linecap", "font":
+			closeGroup()
+		default:
+			groupCmds++
+		}
 		switch c.Fn {
 		case "move":
 			x, y = n[0], n[1]
@@ -153,7 +175,7 @@ func expected(hist []Cmd) []leaf {
 			if len(c.Strs) > 0 {
 				col = c.Strs[0]
 			}
-			clear(col, "clear")
+			clear(col, "clear", len(c.Strs) > 0)
 		case "grid", "gridn":
 			unit, col := 10.0, "hsl(0deg 100% 0% / 50%)"
 			if c.Fn == "gridn" {
@@ -162,6 +184,9 @@ func expected(hist []Cmd) []leaf {
 			for i := 0.0; i <= 100; i += unit {
 				v := f10(10 * i)
 				gl := map[string]bool{"width-attr": true, "fill": true, "dash": true, "linecap": true}
+				if col == "" {
+					gl["stroke"] = true // `gridn n ""`: an empty string is not a colour, what it stands for is left open
+				}
 				add(leaf{kind: "line", cmd: c.Fn, st: style{stroke: col}, geom: map[string]string{"x1": v, "y1": "0", "x2": v, "y2": "1000"}, loose: gl})
 				add(leaf{kind: "line", cmd: c.Fn, st: style{stroke: col}, geom: map[string]string{"x1": "0", "y1": v, "x2": "1000", "y2": v}, loose: gl})
 			}
@@ -207,6 +232,7 @@ func expected(hist []Cmd) []leaf {
 			}
 		}
 	}
+	closeGroup()
 	return out
 }
 
@@ -475,7 +501,11 @@ func checkAll(c Case) (fails []*h.Failure) {
 				return nil
 			}
 			if !numEq(gotv, exp) && !(attr == "stroke-dasharray" && pointsEqSpace(gotv, exp)) {
-				return mk("style:"+name, fmt.Sprintf("%s has %s=%q, the pen had %s %q when it was drawn", where, attr, gotv, name, exp))
+				tag := ""
+				if w.alone {
+					tag = " (the only drawing command between two style changes)"
+				}
+				return mk("style:"+name, fmt.Sprintf("%s has %s=%q, the pen had %s %q when it was drawn%s", where, attr, gotv, name, exp, tag))
 			}
 			return nil
 		}
